@@ -118,7 +118,7 @@ OTHER_CHECKS = [
     ("C15", "model_checking",
      "Compat.tla states the DDS request/offered table and the partition matching rule as operators; TLC enumerates every pair of policy groups over all their abstract values (15 050 QoS records) and 693 partition-list pairs with the specification's verdict; both compatibility functions of the code are evaluated on every record (exhaustive) and sampled records / partition pairs are created as real writer/reader pairs in the deterministic simulation, where both sides must reach the specification's verdict.",
      "5.4, 6 C15",
-     "Trusted: TLC, the abstract-to-concrete QoS mapping in harness/src/compat.rs, cfg(dust_dds_verif) wrappers around the two private compatibility functions. Pattern-against-pattern partitions and the incompatible-QoS status contents are not judged.",
+     "Trusted: TLC, the abstract-to-concrete QoS mapping in harness/src/compat.rs, cfg(dust_dds_verif) wrappers around the two private compatibility functions. The incompatible-QoS statuses are observed through listener callbacks (the status getters of the public API are todo!() in dust-dds): an incompatible pair must be reported once on each side with total_count 1 and exactly the policies Compat.tla's Incompatible(q) names, a compatible pair not at all. Pattern-against-pattern partitions are not judged.",
      "explicit TLA+ oracle enumerated by TLC; exhaustive comparison with the implementation's functions + end-to-end replay in the simulation"),
 ]
 
